@@ -310,7 +310,8 @@ func c10GenFile(r *rand.Rand, keys []*rig.Key, db map[[48]byte]trip) (*icFile, s
 	kind := "well-formed"
 	switch r.Intn(30) {
 	case 0:
-		f.Metadata["interchange_format_version"], kind = "4", "wrong-version"
+		// Only versions that are unmistakably different ones (older and newer), never another spelling of 5.
+		f.Metadata["interchange_format_version"], kind = []string{"4", "6", "50", "3", "51", "15"}[r.Intn(6)], "wrong-version"
 	case 1:
 		f.Metadata["genesis_validators_root"], kind = "0x"+strings.Repeat("22", 32), "wrong-root"
 	case 2:
